@@ -178,6 +178,14 @@ class Check:
         self.tier = ns.tier
         self.replay_path = ns.replay
         self.seed = int(os.environ.get("VERIF_SEED", "0") or 0)
+        self.replay_signature = None
+        if self.replay_path:
+            # a replay re-runs the check with the tier and seed recorded in the replay file (same generated inputs) and reports
+            # only whether THAT violation (same signature) is observed again
+            rp = json.loads(Path(self.replay_path).read_text())
+            self.tier = rp.get("tier", self.tier)
+            self.seed = int(rp.get("seed", self.seed))
+            self.replay_signature = rp.get("signature")
         self.rng = random.Random(self.seed * 1000003 + int(pid[1:]))
         self.t0 = time.time()
         self.obligations = []      # (name, ok, note)
@@ -339,6 +347,18 @@ class Check:
             print(f"KNOWN-FINDING: property={self.pid} {h['signature']} :: {h['what']}")
         rc = 0
         (VERIF / "replay").mkdir(exist_ok=True)
+        if self.replay_signature is not None:
+            hit = [v for v in self.violations if v["signature"] == self.replay_signature]
+            for v in hit:
+                tail = " no-failing-input-found" if v["no_input"] else ""
+                print(f"VIOLATION property={self.pid} replay={self.replay_path}{tail}")
+                print(f"  -> {v['what']}"[:600])
+            if not hit:
+                others = [v["signature"] for v in self.violations]
+                print(f"REPLAY property={self.pid} signature={self.replay_signature} not reproduced on the current tree"
+                      + (f" (other violations present: {others})" if others else ""))
+            sys.stdout.flush()
+            return 1 if hit else 0
         for i, v in enumerate(self.violations):
             path = VERIF / "replay" / f"{self.pid}-seed{self.seed}-{i}.json"
             rep = {"property": self.pid, "signature": v["signature"], "what": v["what"], "occurrences": v["count"],
